@@ -20,7 +20,8 @@ Definition key_empty : N := 65280.   (* FIRST_PDU_EMPTY = 0xff00 *)
 Record slot := {
   sst : N;            (* status *)
   skey : N;           (* first_pdu *)
-  sfr : fstate        (* PDU area, bytes used, handle-local counters *)
+  sfr : fstate;       (* PDU area, bytes used, handle-local counters *)
+  shdr : list N       (* the two EtherCAT header bytes in the buffer (written by mark_sendable) *)
 }.
 
 Record pstate := {
@@ -33,7 +34,8 @@ Record pstate := {
 (* PduStorage::new: zeroed memory, so a never-used slot has key 0, not 0xff00 *)
 Definition slot0 (cap : nat) : slot :=
   {| sst := SNone; skey := 0;
-     sfr := {| fbuf := zeros (cap - eth_overhead); fused := 0; fcount := 0; flast := None |} |}.
+     sfr := {| fbuf := zeros (cap - eth_overhead); fused := 0; fcount := 0; flast := None |};
+     shdr := [0; 0] |}.
 
 Definition pinit (n cap : nat) : pstate :=
   {| slots := repeat (slot0 cap) n; fidx := 0; pidx := 0; cap := cap |}.
@@ -44,7 +46,7 @@ Definition get (s : pstate) (i : nat) : slot := nth i (slots s) (slot0 (cap s)).
 Definition set (s : pstate) (i : nat) (x : slot) : pstate :=
   {| slots := upd i x (slots s); fidx := fidx s; pidx := pidx s; cap := cap s |}.
 Definition set_st (s : pstate) (i : nat) (st : N) : pstate :=
-  let x := get s i in set s i {| sst := st; skey := skey x; sfr := sfr x |}.
+  let x := get s i in set s i {| sst := st; skey := skey x; sfr := sfr x; shdr := shdr x |}.
 
 (* compare_exchange on the status *)
 Definition cas (s : pstate) (i : nat) (from to : N) : option pstate :=
@@ -65,7 +67,7 @@ Fixpoint alloc_go (s : pstate) (attempts : nat) : pstate * option nat :=
     match cas s1 i SNone SCreated with
     | Some s2 =>
       (* claim_created + FrameBox::init *)
-      (set s2 i {| sst := SCreated; skey := key_empty; sfr := finit (cap s) |}, Some i)
+      (set s2 i {| sst := SCreated; skey := key_empty; sfr := finit (cap s); shdr := [0; 0] |}, Some i)
     | None => alloc_go s1 k
     end
   end.
@@ -79,7 +81,7 @@ Definition with_fr (s : pstate) (i : nat) (fr : fstate) (keyset : option N) : ps
              skey := match keyset with
                      | Some k => if skey x =? key_empty then k else skey x
                      | None => skey x end;
-             sfr := fr |}.
+             sfr := fr; shdr := shdr x |}.
 
 Definition op_push (s : pstate) (i : nat) (c : command) (d : list N) (o : option nat)
   : pstate * push_result :=
@@ -100,7 +102,9 @@ Definition op_push_rest (s : pstate) (i : nat) (c : command) (b : list N) : psta
 
 (* mark_sendable: store Sendable; the consumed CreatedFrame's Drop then tries Created->None *)
 Definition op_mark (s : pstate) (i : nat) : pstate :=
-  let s1 := set_st s i SSendable in
+  let x := get s i in
+  let s0 := set s i {| sst := sst x; skey := skey x; sfr := sfr x; shdr := ecat_header (fused (sfr x)) |} in
+  let s1 := set_st s0 i SSendable in
   match cas s1 i SCreated SNone with Some s2 => s2 | None => s1 end.
 
 Definition op_drop_created (s : pstate) (i : nat) : pstate :=
@@ -123,7 +127,9 @@ Definition op_tx_claim (s : pstate) : pstate * option nat := tx_scan s 0 (nslots
 Definition op_tx_done (s : pstate) (i : nat) (outcome : N) : pstate :=
   if outcome =? 0 then set_st s i SSent else set_st s i SSendable.
 
-Definition frame_bytes (s : pstate) (i : nat) : list N := as_bytes (sfr (get s i)).
+Definition frame_bytes (s : pstate) (i : nat) : list N :=
+  let x := get s i in
+  bcast ++ src_mac ++ ethertype_bytes ++ shdr x ++ firstn (fused (sfr x)) (fbuf (sfr x)).
 
 (* ---------- receive ---------- *)
 Inductive rx_result := RxIgnored | RxProcessed | RxErr (e : perror).
@@ -173,7 +179,7 @@ Definition op_rx (s : pstate) (bytes : list N) : pstate * rx_result :=
       else
         let fr := sfr x in
         let fr' := {| fbuf := splice 0 i (fbuf fr); fused := fused fr; fcount := fcount fr; flast := flast fr |} in
-        let s2 := set s1 k {| sst := sst x; skey := skey x; sfr := fr' |} in
+        let s2 := set s1 k {| sst := sst x; skey := skey x; sfr := fr'; shdr := shdr x |} in
         match cas s2 k SRxBusy SRxDone with
         | Some s3 => (s3, RxProcessed)
         | None => (s2, RxErr EInvalidFrameState)
@@ -214,14 +220,69 @@ Definition op_drop_received (s : pstate) (i : nat) : res perror pstate :=
   match cas s i SRxProcessing SNone with
   | Some s1 =>
     let x := get s1 i in
-    Ok (set s1 i {| sst := sst x; skey := key_empty; sfr := sfr x |})
+    Ok (set s1 i {| sst := sst x; skey := key_empty; sfr := sfr x; shdr := shdr x |})
   | None => Panic 1
   end.
 
 (* PduLoop::reset: counters and statuses, keys are left alone *)
 Definition op_reset (s : pstate) : pstate :=
-  {| slots := map (fun x => {| sst := SNone; skey := skey x; sfr := sfr x |}) (slots s);
+  {| slots := map (fun x => {| sst := SNone; skey := skey x; sfr := sfr x; shdr := shdr x |}) (slots s);
      fidx := 0; pidx := 0; cap := cap s |}.
+
+(* ---------- the same operations split at the points where another party can get in ----------
+   (cfg(ethercrab_verif) yield points RX_CLAIMED, RX_COPIED, DROP_RELEASED, POLL_NOT_READY) *)
+
+Definition op_rx_begin (s : pstate) (bytes : list N) : pstate * (rx_result + (nat * list N)) :=
+  match rx_parse s bytes with
+  | inl r => (s, inl r)
+  | inr (k, i) =>
+    if (cap s - eth_overhead <? length i)%nat then (s, inl (RxErr EInternal)) else
+    match cas s k SSent SRxBusy with
+    | None => (s, inl (RxErr (EInvalidIndex (N.of_nat k))))
+    | Some s1 => (s1, inr (k, i))
+    end
+  end.
+
+Definition op_rx_copy (s : pstate) (k : nat) (i : list N) : pstate * option rx_result :=
+  let x := get s k in
+  if (length (fbuf (sfr x)) <? length i)%nat then (s, Some (RxErr EInternal))
+  else
+    let fr := sfr x in
+    let fr' := {| fbuf := splice 0 i (fbuf fr); fused := fused fr; fcount := fcount fr; flast := flast fr |} in
+    (set s k {| sst := sst x; skey := skey x; sfr := fr'; shdr := shdr x |}, None).
+
+Definition op_rx_end (s : pstate) (k : nat) : pstate * rx_result :=
+  match cas s k SRxBusy SRxDone with
+  | Some s3 => (s3, RxProcessed)
+  | None => (s, RxErr EInvalidFrameState)
+  end.
+
+Definition op_drop_release (s : pstate) (i : nat) : res perror pstate :=
+  match cas s i SRxProcessing SNone with Some s1 => Ok s1 | None => Panic 1 end.
+
+Definition op_drop_clear (s : pstate) (i : nat) : pstate :=
+  let x := get s i in set s i {| sst := sst x; skey := key_empty; sfr := sfr x; shdr := shdr x |}.
+
+(* poll, first half: the CAS; returns the status it saw when the CAS failed *)
+Definition op_poll_begin (s : pstate) (i : nat) : pstate * option N :=
+  match cas s i SRxDone SRxProcessing with
+  | Some s1 => (s1, None)
+  | None => (s, Some (sst (get s i)))
+  end.
+
+Definition pending_or_err (was : N) : poll_result :=
+  if (was =? SSendable) || (was =? SSending) || (was =? SSent) || (was =? SRxBusy)
+  then PollPending else PollErr EInvalidFrameState.
+
+(* poll, second half: timer, unconditional stores, verdict from the status seen EARLIER *)
+Definition op_poll_end (s : pstate) (i : nat) (was : N) (expired : bool) (retries : nat)
+  : pstate * poll_result * nat :=
+  if expired then
+    match retries with
+    | O => (set_st s i SNone, PollErr ETimeout, retries)
+    | S r => (set_st s i SSendable, pending_or_err was, r)
+    end
+  else (s, pending_or_err was, retries).
 
 (* ---------- histories for the correspondence check ---------- *)
 Inductive op :=
@@ -236,7 +297,14 @@ Inductive op :=
 | OPoll (i : nat) (expired : bool) (retries : nat)
 | ODropFut (i : nat)
 | ODropReceived (i : nat)
-| OReset.
+| OReset
+| ORxBegin (bytes : list N)
+| ORxCopy (k : nat) (i : list N)
+| ORxEnd (k : nat)
+| ODropRelease (i : nat)
+| ODropClear (i : nat)
+| OPollBegin (i : nat)
+| OPollEnd (i : nat) (was : N) (expired : bool) (retries : nat).
 
 Definition err_code (e : perror) : list Z :=
   match e with
@@ -271,6 +339,27 @@ Definition apply_op (s : pstate) (o : op) : pstate * list Z :=
     | _ => (s, [-99]%Z)
     end
   | OReset => (op_reset s, [])
+  | ORxBegin bytes =>
+    let '(s', r) := op_rx_begin s bytes in
+    (s', match r with
+         | inl RxIgnored => [0] | inl RxProcessed => [1] | inl (RxErr e) => 2 :: err_code e
+         | inr (k, _) => [5; Z.of_nat k] end%Z)
+  | ORxCopy k i =>
+    let '(s', r) := op_rx_copy s k i in
+    (s', match r with None => [] | Some (RxErr e) => 2 :: err_code e | Some _ => [1] end%Z)
+  | ORxEnd k =>
+    let '(s', r) := op_rx_end s k in
+    (s', match r with RxIgnored => [0] | RxProcessed => [1] | RxErr e => 2 :: err_code e end%Z)
+  | ODropRelease i =>
+    match op_drop_release s i with Ok s' => (s', [1]%Z) | _ => (s, [-99]%Z) end
+  | ODropClear i => (op_drop_clear s i, [])
+  | OPollBegin i =>
+    let '(s', r) := op_poll_begin s i in
+    (s', match r with None => [1] | Some was => [0; Z.of_N was] end%Z)
+  | OPollEnd i was ex rt =>
+    let '(s', r, rt') := op_poll_end s i was ex rt in
+    (s', (match r with PollReady => [1] | PollPending => [0] | PollErr e => 2 :: err_code e end
+          ++ [Z.of_nat rt'])%Z)
   end.
 
 (* per-slot snapshot compared with the implementation after every op; [full] adds the PDU area *)
